@@ -104,19 +104,35 @@ def run(tier):
             det = {"fields": diff}
             for k in diff:
                 det[k] = {"original_mapped_minus_renamed": [x for x in a[k] if x not in e[k]][:8], "renamed_minus_original": [x for x in e[k] if x not in a[k]][:8]}
-            run_.judge(b, "lineage_changed_by_renaming:" + mode, det, kf_id=classify(b, diff, a, e))
+            b["_det"] = det
+            kfid = classify(b, diff, a, e)
+            b.pop("_det", None)
+            run_.judge(b, "lineage_changed_by_renaming:" + mode, det, kf_id=kfid)
     run_.extra.update({"compared_by_mode": by_mode, "renamed_text_rejected_by_dialect": rejected})
     run_.assumptions = ["all generated local names are unique per statement, so one global substitution renames consistently", "correlated references to outer aliases are not generated"]
     return run_.finish()
+
+
+def _pairs(b, k):
+    return b.get("_det", {}).get("column_pairs", {}).get(k, [])
 
 
 def classify(b, diff, a, e):
     t = set(b["tags"])
     if b["dialect"] == "non-validating" and (b["mode"] == "toggle_as" or any(str(v).startswith("tb_k") for v in (b.get("mapping") or {}).values())):
         return "KF-30e"
+    if b["dialect"] == "non-validating" and t & {"select.star_qualified", "select.star"} and diff == ["column_pairs"] and \
+            any(p[0].endswith(".*") for k in ("original_mapped_minus_renamed", "renamed_minus_original") for p in _pairs(b, k)):
+        return "KF-30e"  # whether the legacy analyzer expands a star over a derived table depends on how the aliases around it are spelled
     # KF-36: the alias of the first relation of a parenthesised join group falls through to a table named after the alias - which the renaming renames
     if "join.parenthesised_group_first_aliased" in t and diff == ["column_pairs"]:
         return "KF-36"
+    if "join.parenthesised_group" in t and diff == ["column_pairs"]:
+        # add_alias may have put an alias on the first relation of a parenthesised join group: its qualifier then falls through to a table named after it
+        newnames = {str(v).lower() for v in (b.get("mapping") or {}).values()}
+        rm = _pairs(b, "renamed_minus_original")
+        if rm and all(p[0].startswith("<default>.") and p[0].split(".")[1] in newnames for p in rm):
+            return "KF-36"
     # KF-24: relations joined inside a derived table leak into the enclosing scope; an alias that equals the bare name of such a leaked
     # table then competes with it for the same key of the alias map
     if "join.derived_with_inner_join" in t and any(str(v).startswith("tb_k") for v in (b.get("mapping") or {}).values()) and diff == ["column_pairs"]:
